@@ -71,6 +71,11 @@ pub struct ClsCase {
     pub eight: bool,
     /// None or Some(4): size of the rayon pool handed to `classgroup`
     pub threads: Option<usize>,
+    /// the documented double-large-prime switch (`ymcls --use-double`): None = the library's default
+    /// (on above ~180 adjusted bits), Some(true) forces it (relations with two large primes and squared
+    /// large primes then occur at every size)
+    #[serde(default)]
+    pub use_double: Option<bool>,
 }
 
 impl ClsCase {
@@ -138,6 +143,8 @@ pub fn case_of_dabs(dabs: u64, shape: &str, threads: Option<usize>) -> Option<Cl
         cert: vec![],
         eight: twos == 3,
         threads,
+        // every third discriminant of the sweeps runs with the double-large-prime variation forced
+        use_double: if (dabs / 4) % 3 == 0 { Some(true) } else { None },
     };
     if c.dabs() == Some(dabs as u128) {
         Some(c)
@@ -222,6 +229,7 @@ pub fn strategy_mid(lo: u32, maxbits: u32) -> impl Strategy<Value = ClsCase> {
                         cert: vec![],
                         eight,
                         threads: if thr { Some(4) } else { None },
+                        use_double: if seed % 3 == 0 { Some(true) } else { None },
                     };
                     match c.dabs() {
                         Some(d) if d < 1u128 << maxbits && d >= 3 => break c,
@@ -308,6 +316,7 @@ pub fn strategy_big(lo: u32, hi: u32) -> impl Strategy<Value = ClsCase> {
                 cert,
                 eight,
                 threads: if thr { Some(4) } else { None },
+                use_double: if seed % 3 == 0 { Some(true) } else { None },
             };
             match c.dabs() {
                 Some(d) if 128 - d.leading_zeros() <= hi => break c,
@@ -347,7 +356,7 @@ pub enum Outcome {
 }
 
 /// `classgroup(D, prefs, pool)` on its own 8 MiB thread (the CLI's main-thread stack) under a watchdog.
-pub fn call_library(dabs: u128, threads: Option<usize>, outdir: &Path) -> Outcome {
+pub fn call_library(dabs: u128, threads: Option<usize>, use_double: Option<bool>, outdir: &Path) -> Outcome {
     let (tx, rx) = mpsc::channel();
     let abort = Arc::new(AtomicBool::new(false));
     let ab2 = abort.clone();
@@ -370,6 +379,7 @@ pub fn call_library(dabs: u128, threads: Option<usize>, outdir: &Path) -> Outcom
             let mut prefs = Preferences::default();
             prefs.verbosity = Verbosity::Silent;
             prefs.threads = threads;
+            prefs.use_double = use_double;
             prefs.outdir = Some(od);
             // never true before the watchdog fires: lets a stuck sieve loop end afterwards
             prefs.should_abort = Some(Box::new(move || ab2.load(Ordering::Relaxed)));
@@ -799,7 +809,10 @@ pub fn check(c: &ClsCase, l: &mut Local) -> Result<(), Fail> {
         l.label(k);
     }
     l.label(&format!("shape:{}", c.shape));
-    let out = call_library(dabs, c.threads, &dir);
+    let out = call_library(dabs, c.threads, c.use_double, &dir);
+    if c.use_double == Some(true) {
+        l.label("use_double:forced");
+    }
     let res = (|| -> Result<(), Fail> {
         if matches!(out, Outcome::None | Outcome::Panic(_)) {
             no_result_diagnostic(c, dabs, &dir, l)?;
@@ -871,6 +884,7 @@ fn golden() -> Vec<ClsCase> {
         cert: vec![],
         eight,
         threads: None,
+        use_double: None,
     };
     vec![
         mk(&[21827869366691, 3720220850369, 3420347448653], false),  // 128 bits (test_classgroup)
